@@ -41,6 +41,10 @@ func genOp(t *rapid.T) kit.Cmd {
 		return kit.MkCmd(append([]string{gen.CaseOf(t, name)}, args...)...)
 	}
 	k := genKey(t)
+	if rapid.IntRange(0, 39).Draw(t, "bigfloat") == 0 {
+		// finite + finite must not silently become infinite
+		return c("incrbyfloat", gen.Pick(t, "bfk", "a", "A"), gen.Pick(t, "bigby", "1.7e308", "1.7e308", "-1.7e308", "1e308", "-1e308"))
+	}
 	switch gen.Weighted(t, "cmd", []int{14, 8, 4, 4, 3, 3, 5, 3, 5, 5, 4, 3, 3, 3, 3, 5, 4, 3, 4, 3, 2, 2, 2, 2}) {
 	case 0: // SET with options
 		args := []string{k, gen.Value(t, "v")}
